@@ -464,6 +464,38 @@ pub fn convert_events(evs: Vec<StunClientEvent>) -> Vec<Ev> {
 mod step;
 pub use step::*;
 
+/// Decide what to do with the findings of one step: Err = a finding of a focused property (raise);
+/// Ok(false) = only other properties' invariants deviated (end the case without an alarm); Ok(true) = go on.
+/// All findings of the step are looked at before giving up on the case, so an unfocused finding never hides a focused one.
+pub fn judge_findings(findings: Vec<Finding>, focus: &[&str], ctx: &Ctx, st: &mut Stats) -> Result<bool, (String, String)> {
+    let mut diverged: Option<String> = None;
+    for f in findings {
+        let in_focus = f.tags.iter().any(|t| focus.contains(t));
+        if let Some(sig) = f.known {
+            if in_focus {
+                if ctx.is_known(sig) {
+                    st.known(sig);
+                    continue;
+                }
+            } else {
+                st.class("tolerated-known-deviation-outside-focus");
+                continue;
+            }
+        }
+        if in_focus {
+            return Err((f.tags.join(","), f.msg));
+        }
+        if diverged.is_none() {
+            diverged = Some(f.tags.join(","));
+        }
+    }
+    if let Some(t) = diverged {
+        st.class(&format!("diverged-outside-focus:{}", t));
+        return Ok(false);
+    }
+    Ok(true)
+}
+
 /// Run a whole history; raise only findings tagged with a property in `focus`.
 pub fn run_history(h: &History, focus: &[&str], ctx: &Ctx, st: &mut Stats, drain: bool) -> Result<Option<Sim>, String> {
     let mut sim = match Sim::new(&h.cfg) {
@@ -473,27 +505,8 @@ pub fn run_history(h: &History, focus: &[&str], ctx: &Ctx, st: &mut Stats, drain
             return Ok(None);
         }
     };
-    let mut judge = |findings: Vec<Finding>, i: usize, what: &str, st: &mut Stats| -> Result<bool, String> {
-        for f in findings {
-            let in_focus = f.tags.iter().any(|t| focus.contains(t));
-            if let Some(sig) = f.known {
-                if in_focus {
-                    if ctx.is_known(sig) {
-                        st.known(sig);
-                        continue;
-                    }
-                } else {
-                    st.class("tolerated-known-deviation-outside-focus");
-                    continue;
-                }
-            }
-            if in_focus {
-                return Err(format!("[{}] step {} {}: {}", f.tags.join(","), i, what, f.msg));
-            }
-            st.class(&format!("diverged-outside-focus:{}", f.tags.join(",")));
-            return Ok(false);
-        }
-        Ok(true)
+    let judge = |findings: Vec<Finding>, i: usize, what: &str, st: &mut Stats| -> Result<bool, String> {
+        judge_findings(findings, focus, ctx, st).map_err(|(tags, msg)| format!("[{}] step {} {}: {}", tags, i, what, msg))
     };
     for (i, op) in h.ops.iter().enumerate() {
         let findings = match guard(|| sim.step(op)) {
